@@ -302,6 +302,9 @@ func metaHeader(name string) string {
 }
 
 func (c *Conc) MetaValue(name, v string) string {
+	if v == "" {
+		return "" // a header sent with an empty value
+	}
 	switch name {
 	case "ct":
 		return "application/x-" + strings.ToLower(v)
